@@ -287,6 +287,23 @@ func (r *c07PlainSeeker) Read(p []byte) (int, error) {
 	return n, nil
 }
 
+// c07FailSeeker fails every Read once failAt bytes have been delivered.
+type c07FailSeeker struct {
+	c07PlainSeeker
+	failAt int
+}
+
+func (r *c07FailSeeker) Read(p []byte) (int, error) {
+	left := r.failAt - int(r.pos)
+	if left <= 0 {
+		return 0, errors.New("c07: injected read error")
+	}
+	if len(p) > left {
+		p = p[:left]
+	}
+	return r.c07PlainSeeker.Read(p)
+}
+
 func (r *c07PlainSeeker) Seek(off int64, whence int) (int64, error) {
 	var np int64
 	switch whence {
@@ -511,7 +528,8 @@ func c07FuncRun(c *mc.Ctx) {
 			}
 		}
 		off := offs[c.Free(len(offs), "offset")]
-		start := []int{0, size / 2, size}[c.Free(3, "startpos")]
+		si := c.Free(3, "startpos")
+		start := []int{0, size / 2, size}[si]
 		kind := c.Free(3, "reader")
 		content := pattern(size, c.Seed+int64(size))
 		var r io.ReadSeeker
@@ -525,11 +543,26 @@ func c07FuncRun(c *mc.Ctx) {
 		case 2:
 			r = &c07PlainSeeker{data: content, pos: int64(start), chunk: 7}
 		}
+		// history: an earlier hashing pass in the same process (one that failed part-way, or one over
+		// other content) must not influence this one
+		prior := c.Free(4, "earlier call")
+		other := pattern(4096, c.Seed+99)
+		switch prior {
+		case 1, 2:
+			failAt := []int{0, 1, 2049}[prior]
+			_, perr := integrityblock.ComputeWebBundleSha512(&c07FailSeeker{c07PlainSeeker{data: other, chunk: 1 << 30}, failAt}, 0)
+			if perr == nil {
+				c.Fail(fmt.Sprintf("C07/functions:sha512-failing-reader@%d", failAt), "ComputeWebBundleSha512 reported success although the reader failed", fmt.Sprintf("reader failing after %d bytes", failAt), "error", "nil")
+				return
+			}
+		case 3:
+			integrityblock.ComputeWebBundleSha512(bytes.NewReader(other), 0)
+		}
 		w := sha512.Sum512(content[off:])
 		got, err := integrityblock.ComputeWebBundleSha512(r, int64(off))
 		c.Eval()
-		desc := fmt.Sprintf("sha512(size=%d,offset=%d,startpos=%d,reader=%d)", size, off, start, kind)
-		c.StateU64(uint64(size)<<32 | uint64(off)<<8 | uint64(start&0xf)<<4 | uint64(kind))
+		desc := fmt.Sprintf("sha512(size=%d,offset=%d,startpos=%d,reader=%d,earlier=%d)", size, off, start, kind, prior)
+		c.StateU64(uint64(size)<<32 | uint64(off)<<10 | uint64(prior)<<8 | uint64(si)<<4 | uint64(kind))
 		if err != nil || !bytes.Equal(got, w[:]) {
 			c.Fail("C07/functions:"+desc, "ComputeWebBundleSha512 differs from SHA-512 of the file from the offset", desc, hx(w[:]), fmt.Sprintf("%s err=%v", hx(got), err))
 			return
